@@ -29,7 +29,7 @@ def cfgs_quick():
         for ln in (0, 16, 31, 40, 63):  # padded to 16, 32 (=1 chunk), 32, 48, 64 (=2 full chunks)
             L.append((2, "none", dict(T=2, len=ln, enc=enc, bound=2), 2 if ln >= 32 else 1))
         # three chunks on two buffers: buffer 0 is reused
-        L.append((2, "none", dict(T=2, len=70, enc=enc, bound=2), 6))
+        L.append((2, "none", dict(T=2, len=70, enc=enc, bound=1), 1))  # (all interleavings of this one: state-matching below)
         L.append((2, "none", dict(T=2, len=64, enc=enc, bound=1), 1))
         for ln in (16, 40, 100):
             L.append((2, "none", dict(T=3, len=ln, enc=enc, bound=2, delay=1), 1))
@@ -38,6 +38,14 @@ def cfgs_quick():
         for ln in (0, 15, 16):
             L.append((1, "none", dict(T=2, len=ln, enc=enc, bound=2), 1))
         L.append((1, "none", dict(T=2, len=40, enc=enc, bound=1), 1))
+        # state-matching search: NO preemption bound; an execution stops branching where the canonical implementation state
+        # (shared memory, modelled sync state, every thread's return-address chain, stream/file/monitor state) was expanded before
+        # (maxexec: a broken tree can have a far larger state space; the cap keeps the quick tier quick, violations are found early)
+        for ln in (16, 40, 70):
+            L.append((2, "none", dict(T=2, len=ln, enc=enc, stateful=1, maxexec=40000), 1))
+        L.append((2, "none", dict(T=2, len=40, enc=enc, stateful=1, spurious=1, maxexec=40000), 1))
+        L.append((2, "none", dict(T=3, len=40, enc=enc, stateful=1, maxexec=60000), 1))
+        L.append((1, "none", dict(T=2, len=40, enc=enc, stateful=1, maxexec=40000), 1))
         # POSIX allows condition waits to return spuriously: one injected spurious wake-up per execution (counts as a deviation)
         for ln in (40, 70):
             L.append((2, "none", dict(T=2, len=ln, enc=enc, bound=1, spurious=1), 1))
@@ -79,6 +87,16 @@ def cfgs_thorough():
             L.append((2, "none", dict(T=3, len=ln, enc=enc, bound=3, delay=1), 4))
         for ln in (16, 70, 130, 170):
             L.append((2, "none", dict(T=4, len=ln, enc=enc, bound=1), 2))
+        # state-matching search (no bound), see cfgs_quick
+        for ln in (0, 15, 16, 31, 32, 40, 63, 64, 70, 96, 100, 130):
+            L.append((2, "none", dict(T=2, len=ln, enc=enc, stateful=1), 1))
+        for ln in (0, 16, 40, 48):
+            L.append((1, "none", dict(T=2, len=ln, enc=enc, stateful=1), 1))
+            L.append((2, "none", dict(T=2, len=ln, enc=enc, stateful=1, spurious=1), 1))
+        for ln in (16, 40, 70, 100):
+            L.append((2, "none", dict(T=3, len=ln, enc=enc, stateful=1), 1))
+        L.append((2, "none", dict(T=3, len=40, enc=enc, stateful=1, spurious=1), 1))
+        L.append((2, "none", dict(T=4, len=70, enc=enc, stateful=1), 1))
         for ln in (0, 15, 16, 17, 32, 40, 48):
             L.append((1, "none", dict(T=2, len=ln, enc=enc, bound=3), 2))
         for ln in (16, 33, 50):
@@ -151,7 +169,7 @@ def tsan_aux(tier, which="pipe"):
 def run(pid, tier, replay=None):
     t0 = time.time()
     seed = c.seed_from_env()
-    deadline_s = float(os.environ.get("VERIF_DEADLINE_S", "2400" if tier == "thorough" else "600"))
+    deadline_s = float(os.environ.get("VERIF_DEADLINE_S", "2400" if tier == "thorough" else "420"))
     try:
         exes = {}
 
@@ -179,7 +197,7 @@ def run(pid, tier, replay=None):
         # cheapest first: everything that can complete does; the dearest configurations are the ones the deadline cuts
         def cost(i):
             bufsz, san, args, nsh = plan[meta[i][0]]
-            return (args.get("T", 1) * 10 + args.get("bound", 9) + (50 if args.get("sleep") and args.get("T", 1) > 1 else 5 if args.get("sleep") else 0) + (3 if san == "address" else 0), args.get("len", 0))
+            return ((args.get("T", 1) - 1) * 10 + 4 if args.get("stateful") else args.get("T", 1) * 10 + args.get("bound", 9) + (50 if args.get("sleep") and args.get("T", 1) > 1 else 5 if args.get("sleep") else 0) + (3 if san == "address" else 0), args.get("len", 0))
         order = sorted(range(len(jobs)), key=cost)
         res = c.run_jobs([jobs[i] for i in order], deadline=t0 + deadline_s)
     except c.CannotDecide as e:
@@ -222,6 +240,8 @@ def run(pid, tier, replay=None):
     others = sorted(set("%s/%s" % (v.get("prop"), v.get("key")) for v in viol_all if v.get("prop") != pid))
     for o in others:
         print("NOTE: this exploration also saw a violation that belongs to another property: %s (run that property's check)" % o)
+    if agg.flags.get("abstraction_deterministic", True) is False:
+        print("NOTE: the state abstraction was NOT deterministic on this tree (successor mismatches): the state-matching configurations are not claimed; the bounded searches stand on their own")
     unconfirmed = [v for v in mine if not v.get("confirmed", True)]
     if unconfirmed:
         cannot = "a violation did not replay deterministically: " + unconfirmed[0]["desc"][:200]
@@ -249,6 +269,15 @@ def run(pid, tier, replay=None):
         "states_note": "distinct hashes of (thread/lock/condvar state, buffer states+cursors, turn/over/live counters) seen at choice points, united per configuration and summed; used as a metric only, never for pruning",
         "monitor": TITLE[pid],
         "caps_hit": bool(capped),
+        "state_matching": {
+            "executions_cut_at_known_state": int(agg.cov.get("state_cuts", 0)),
+            "successor_checks": int(agg.cov.get("successor_checks", 0)),
+            "successor_mismatches": int(agg.cov.get("successor_mismatches", 0)),
+            "abstraction_deterministic": bool(agg.flags.get("abstraction_deterministic", True)),
+            "note": "configurations marked state-matching are explored without a preemption bound; branching stops at a choice point whose canonical state was expanded before. "
+                    "Assumption: the canonical state (valid chunk bytes, cursors, buffer states, turn/over/live, modelled mutex/condvar state, each thread's pending operation with hook kind/argument and its "
+                    "return-address chain, stream states, output written, input position, monitor state) determines the future; checked on every execution by requiring that (state, thread chosen) always leads to the same next state",
+        },
     }
     coverage.update(aux)
     assumptions = [
